@@ -112,6 +112,85 @@ func registerHooks(p *Program) {
 		fr.i.noteStub("go.etcd.io/bbolt: replaced by the mbolt model (validated against real bbolt by harness/verifrt/mbolt/diff_test.go)")
 		return call(fr.i, fr, token.NoPos, mb.Func("NewDB"), nil)
 	}
+	// database files (Snapshot / RestoreFromReader): os.Create / os.Open /
+	// io.Copy / os.Rename / (*os.File).Close act on the mbolt registry of
+	// database images by path; file handles are opaque cells
+	fileCell := func(fr *frame, path string) value {
+		es := &fr.i.es
+		if es.files == nil {
+			es.files = map[*value]string{}
+		}
+		var st value = structure{(*value)(nil)}
+		cell := &st
+		es.files[cell] = path
+		return cell
+	}
+	mboltFn := func(fr *frame, name string, args ...value) value {
+		mb := fr.i.prog.ImportedPackage(rtPkg + "/mbolt")
+		if mb == nil || mb.Func(name) == nil {
+			panic(abort{AbortUnsupported, "mbolt." + name + " not loaded"})
+		}
+		return call(fr.i, fr, token.NoPos, mb.Func(name), args)
+	}
+	pathErr := func(fr *frame, op, path string) value {
+		return makeFmtError(fr.i, op+" "+path+": no such file or directory", nil)
+	}
+	h["os.Create"] = func(fr *frame, args []value) value {
+		path, ok := args[0].(string)
+		if !ok {
+			panic(abort{AbortUnsupported, "os.Create of a symbolic path"})
+		}
+		fr.i.noteStub("os.Create/Open/Rename, io.Copy, (*os.File).Close: database files are entries of the mbolt registry (path -> database image)")
+		mboltFn(fr, "CreatePath", path)
+		return tuple{fileCell(fr, path), iface{}}
+	}
+	h["os.Open"] = func(fr *frame, args []value) value {
+		path, ok := args[0].(string)
+		if !ok {
+			panic(abort{AbortUnsupported, "os.Open of a symbolic path"})
+		}
+		if !mboltFn(fr, "PathExists", path).(bool) {
+			return tuple{(*value)(nil), pathErr(fr, "open", path)}
+		}
+		return tuple{fileCell(fr, path), iface{}}
+	}
+	h["(*os.File).Close"] = func(fr *frame, args []value) value { return iface{} }
+	h["os.Rename"] = func(fr *frame, args []value) value {
+		from, ok1 := args[0].(string)
+		to, ok2 := args[1].(string)
+		if !ok1 || !ok2 {
+			panic(abort{AbortUnsupported, "os.Rename of a symbolic path"})
+		}
+		if !mboltFn(fr, "RenamePath", from, to).(bool) {
+			return pathErr(fr, "rename", from)
+		}
+		return iface{}
+	}
+	h["io.Copy"] = func(fr *frame, args []value) value {
+		es := &fr.i.es
+		fileOf := func(v value) (string, bool) {
+			itf, ok := v.(iface)
+			if !ok {
+				return "", false
+			}
+			c, ok := itf.v.(*value)
+			if !ok {
+				return "", false
+			}
+			p, ok := es.files[c]
+			return p, ok
+		}
+		dst, ok1 := fileOf(args[0])
+		src, ok2 := fileOf(args[1])
+		if !ok1 || !ok2 {
+			panic(abort{AbortUnsupported, "io.Copy between values that are not modelled database files"})
+		}
+		if !mboltFn(fr, "CopyPath", src, dst).(bool) {
+			return tuple{int64(0), pathErr(fr, "read", src)}
+		}
+		return tuple{int64(1), iface{}}
+	}
+
 	// storage fault: verifrt.SetPutFault / DisarmPutFault / PutFaultFired drive
 	// the countdown of the mbolt model (natively: the countdown overlaid at
 	// bbolt's own beforeBucketPut failpoint)
